@@ -384,3 +384,92 @@ Proof.
     + match goal with |- ?m bs 0%nat = _ =>
         assert (S : fails_short m 40) by (eapply fails_short_ext; [fs | reflexivity]); apply S; lia end.
 Qed.
+
+(* ---------- helpers for hand-written tails ---------- *)
+Ltac to_tail H :=
+  match goal with |- ?m ?bs 0%nat = _ =>
+    let T := fresh "T" in
+    eassert (T : then_tail m H _) by (eapply then_tail_ext; [tt | reflexivity | intros; reflexivity]);
+    rewrite (T bs 0%nat) by lia; clear T; cbn [Nat.add]
+  end.
+Ltac short_of H :=
+  match goal with |- ?m ?bs 0%nat = _ =>
+    let S := fresh "S" in
+    assert (S : fails_short m H) by (eapply fails_short_ext; [fs | reflexivity]); apply S; lia
+  end.
+Ltac by_reader :=
+  match goal with |- ?m ?bs ?p = _ =>
+    let R := fresh "R" in
+    eassert (R : reads m _ _) by rd;
+    rewrite (reads_ok _ _ _ bs p R) by (cbn [Nat.add Nat.mul]; lia); clear R
+  end.
+
+(* ---------- type 16 ---------- *)
+Theorem layout_assignment bs :
+  if (92 <=? length bs)%nat
+  then parse_assignment_mode_command bs 0%nat
+       = Ok (assignment_of bs, if (144 <=? length bs)%nat then 144%nat else 92%nat)
+  else parse_assignment_mode_command bs 0%nat = Err EError.
+Proof.
+  unfold parse_assignment_mode_command.
+  destruct (Nat.leb_spec 92 (length bs)) as [Hl|Hl]; [|short_of 92%nat].
+  to_tail 92%nat. unfold bind at 1, remaining. unfold assignment_of.
+  destruct (Nat.leb_spec 144 (length bs)) as [H2|H2].
+  - destruct (Nat.leb_spec 52 (length bs - 92)); [|lia]. by_reader. reflexivity.
+  - destruct (Nat.leb_spec 52 (length bs - 92)); [lia|]. reflexivity.
+Qed.
+
+(* ---------- types 12 and 14: text of every whole character that is present ---------- *)
+Definition text_layout {A} (c : cfg) (m : P A) (H : nat) (V : list bool -> A) (bs : list bool) : Prop :=
+  if (H + 6 <=? length bs)%nat then
+    if noalloc c && (20 <? (length bs - H) / 6)%nat
+    then m bs 0%nat = Err EFailure
+    else m bs 0%nat = Ok (V bs, (6 * ((length bs - H) / 6) + H)%nat)
+  else m bs 0%nat = Err EError.
+
+Theorem layout_addressed_safety c bs : text_layout c (parse_addressed_safety c) 72 addressed_safety_of bs.
+Proof.
+  unfold parse_addressed_safety, text_layout.
+  destruct (Nat.leb_spec (72 + 6) (length bs)) as [Hl|Hl].
+  - destruct (noalloc c) eqn:Hc; cbn [andb];
+      [destruct (Nat.ltb_spec 20 ((length bs - 72) / 6)) as [Hb|Hb]|];
+      to_tail 72%nat; unfold bind at 1, remaining;
+      (destruct (Nat.ltb_spec (length bs - 72) 6) as [Hr|Hr]; [lia|]).
+    + unfold bind; rewrite parse_6bit_ascii_too_large by assumption; reflexivity.
+    + unfold bind at 1.
+      rewrite (reads_ok _ _ _ bs 72%nat (reads_parse_6bit_ascii' c (length bs - 72) (or_intror Hb)))
+        by (pose proof (Nat.mul_div_le (length bs - 72) 6); lia).
+      reflexivity.
+    + unfold bind at 1.
+      rewrite (reads_ok _ _ _ bs 72%nat (reads_parse_6bit_ascii' c (length bs - 72) (or_introl Hc)))
+        by (pose proof (Nat.mul_div_le (length bs - 72) 6); lia).
+      reflexivity.
+  - destruct (Nat.leb_spec 72 (length bs)).
+    + to_tail 72%nat; unfold bind at 1, remaining.
+      destruct (Nat.ltb_spec (length bs - 72) 6); [reflexivity|lia].
+    + short_of 72%nat.
+Qed.
+
+Theorem layout_safety_broadcast c bs : text_layout c (parse_safety_broadcast c) 40 safety_broadcast_of bs.
+Proof.
+  unfold parse_safety_broadcast, text_layout.
+  destruct (Nat.leb_spec (40 + 6) (length bs)) as [Hl|Hl].
+  - destruct (noalloc c) eqn:Hc; cbn [andb];
+      [destruct (Nat.ltb_spec 20 ((length bs - 40) / 6)) as [Hb|Hb]|];
+      to_tail 40%nat; unfold bind at 1, remaining;
+      (destruct (Nat.ltb_spec (length bs - 40) 6) as [Hr|Hr]; [lia|]).
+    + unfold bind; rewrite parse_6bit_ascii_too_large by assumption; reflexivity.
+    + unfold bind at 1.
+      rewrite (reads_ok _ _ _ bs 40%nat (reads_parse_6bit_ascii' c (length bs - 40) (or_intror Hb)))
+        by (pose proof (Nat.mul_div_le (length bs - 40) 6); lia).
+      reflexivity.
+    + unfold bind at 1.
+      rewrite (reads_ok _ _ _ bs 40%nat (reads_parse_6bit_ascii' c (length bs - 40) (or_introl Hc)))
+        by (pose proof (Nat.mul_div_le (length bs - 40) 6); lia).
+      reflexivity.
+  - destruct (Nat.leb_spec 40 (length bs)).
+    + to_tail 40%nat; unfold bind at 1, remaining.
+      destruct (Nat.ltb_spec (length bs - 40) 6); [reflexivity|lia].
+    + short_of 40%nat.
+Qed.
+
